@@ -86,7 +86,7 @@ class Check(CheckBase):
         cases = []
         quick = self.tier == 'quick'
         # adapter-level cases, batched (one case = one (min,max) with a batch of streams)
-        reps = 1 if quick else 40
+        reps = 1 if quick else 100
         for rep_i in range(reps):
             for (mn, mx) in pairs:
                 cases.append({'kind': 'adapter', 'min': mn, 'max': mx,
